@@ -5,6 +5,8 @@ Import ListNotations.
 
 (* Model.BTree.entry and Spec.MapSpec.entry are both Z * Z; use the model's name throughout *)
 Notation entry := BTree.entry.
+Local Arguments maybe_split : simpl never.
+Local Arguments rebalance_child : simpl never.
 
 (* ---------- shape predicates (no comparator involved) ---------- *)
 Inductive wf_shape : node -> Prop :=
@@ -564,4 +566,633 @@ Proof.
     + constructor; [right; lia|exact HfR].
 Qed.
 
+Definition ins_post (e : entry) (n : node) (r : ires) : Prop :=
+  match r with
+  | IOk n' => inorder n' = ins_list cmp (fst e) (snd e) (inorder n) /\ wf_shape n'
+  | ISplit l mid rr => inorder l ++ mid :: inorder rr = ins_list cmp (fst e) (snd e) (inorder n) /\
+                       wf_shape l /\ wf_shape rr
+  end.
+
+Lemma maybe_split_post : forall e n n0, wf_shape n0 ->
+  inorder n0 = ins_list cmp (fst e) (snd e) (inorder n) -> ins_post e n (maybe_split m n0).
+Proof.
+  intros e n [es0 cs0] Hwf Hin. pose proof (maybe_split_spec es0 cs0 Hwf) as Hsp.
+  destruct (maybe_split m (N es0 cs0)) as [n'|l mid rr]; unfold ins_post.
+  - subst n'. split; assumption.
+  - destruct Hsp as (H1 & H2 & H3). rewrite H1. auto.
+Qed.
+
+Lemma ins_inorder : forall fuel e n r b,
+  (maxheight n <= fuel)%nat -> wf_shape n -> bst n ->
+  ins m cmp fuel e n = Some (r, b) ->
+  b = negb (mem_list cmp (fst e) (inorder n)) /\ ins_post e n r.
+Proof.
+  induction fuel as [|f IH]; intros e [es cs] r b Hfuel Hwf Hbst H; [discriminate|].
+  cbn [ins] in H. pose proof (bst_entries _ _ Hbst) as Hes.
+  pose proof Hwf as Hwf0. apply wf_shape_inv in Hwf. destruct Hwf as [Hl Hf].
+  destruct (search cmp (fst e) es) as [pos found] eqn:Es. destruct found.
+  - (* key present in this node *)
+    injection H as <- <-.
+    destruct (search_found _ _ _ Hes Es) as (es1 & e0 & es2 & -> & Hpos & Heq). subst pos.
+    rewrite replace_at_app.
+    destruct (inorder_entry_split es1 e0 es2 cs Hl) as (A & B & HAB).
+    unfold bst in Hbst. rewrite HAB in Hbst.
+    destruct (sorted_eq_ctx _ _ _ _ Hbst Heq) as [HA HB].
+    unfold ins_post. rewrite !HAB. split; [|split].
+    + unfold mem_list. rewrite find_list_mid by assumption. reflexivity.
+    + rewrite ins_list_mid by assumption. destruct e; reflexivity.
+    + constructor; [|exact Hf]. rewrite app_length in *. exact Hl.
+  - destruct (search_notfound _ _ _ Hes Es) as (es1 & es2 & -> & Hpos & HG & HL). subst pos.
+    destruct cs as [|c0 cs0].
+    + (* leaf *)
+      injection H as <- <-. rewrite insert_at_app. cbn [inorder interleave map].
+      split.
+      * unfold mem_list. rewrite find_list_none by assumption. reflexivity.
+      * apply maybe_split_post.
+        -- constructor; [left; reflexivity|constructor].
+        -- cbn [inorder interleave map]. rewrite ins_list_new by assumption. destruct e; reflexivity.
+    + (* internal *)
+      remember (c0 :: cs0) as cs eqn:Ecs.
+      destruct Hl as [Hl|Hl]; [subst cs; discriminate|].
+      destruct (nth_error cs (length es1)) as [c|] eqn:Ec; [|discriminate].
+      destruct (split_nth _ _ _ _ Ec) as (cs1 & cs2 & Ecs' & Hc1). clear Ecs. subst cs.
+      rewrite !app_length in Hl. cbn [length] in Hl.
+      assert (Hc2 : length cs2 = length es2) by lia.
+      apply Forall_app_mid in Hf. destruct Hf as (Hf1 & Hfc & Hf2).
+      unfold bst in Hbst. rewrite (inorder_child_split es1 es2 cs1 c cs2 Hc1 Hc2) in Hbst.
+      destruct (child_ctx (fst e) es1 es2 (map inorder cs1) (map inorder cs2) (inorder c)) as (HA & HB & HX);
+        try (rewrite map_length; assumption); try assumption.
+      assert (Hmh : (maxheight c <= f)%nat).
+      { pose proof (maxheight_child (es1 ++ es2) (cs1 ++ c :: cs2) c) as Hmc.
+        assert (In c (cs1 ++ c :: cs2)) by (apply in_or_app; right; left; reflexivity). specialize (Hmc H0). lia. }
+      destruct (ins m cmp f e c) as [[rc bc]|] eqn:Ei; [|discriminate].
+      destruct (IH e c rc bc Hmh Hfc HX Ei) as [Hb Hpost].
+      assert (Hmem : mem_list cmp (fst e) (inorder (N (es1 ++ es2) (cs1 ++ c :: cs2))) = mem_list cmp (fst e) (inorder c)).
+      { rewrite (inorder_child_split es1 es2 cs1 c cs2 Hc1 Hc2).
+        rewrite mem_list_app_l by assumption. rewrite mem_list_app_r by assumption. reflexivity. }
+      assert (Hins : ins_list cmp (fst e) (snd e) (inorder (N (es1 ++ es2) (cs1 ++ c :: cs2))) =
+                     pre (map inorder cs1) es1 ++ ins_list cmp (fst e) (snd e) (inorder c) ++ post (map inorder cs2) es2).
+      { rewrite (inorder_child_split es1 es2 cs1 c cs2 Hc1 Hc2).
+        rewrite ins_list_app_l by assumption. rewrite ins_list_app_r by assumption. reflexivity. }
+      rewrite Hmem.
+      destruct rc as [c'|l mid rr]; unfold ins_post in Hpost.
+      * injection H as <- <-. split; [exact Hb|]. destruct Hpost as [Hin Hwc].
+        unfold ins_post. rewrite Hins. rewrite <- Hc1. rewrite replace_at_app.
+        rewrite (inorder_child_split es1 es2 cs1 c' cs2 Hc1 Hc2). rewrite Hin. split; [reflexivity|].
+        constructor.
+        -- right. rewrite !app_length. cbn [length]. lia.
+        -- apply Forall_app_mid. auto.
+      * destruct Hpost as (Hin & Hwl & Hwr). injection H as <- <-. split; [exact Hb|].
+        rewrite insert_at_app. rewrite <- Hc1. rewrite replace_at_app.
+        replace (cs1 ++ l :: cs2) with ((cs1 ++ [l]) ++ cs2) by (rewrite <- app_assoc; reflexivity).
+        replace (S (length cs1)) with (length (cs1 ++ [l])) by (rewrite app_length; cbn; lia).
+        rewrite insert_at_app. rewrite <- app_assoc. cbn [app].
+        apply maybe_split_post.
+        -- constructor.
+           ++ right. rewrite !app_length. cbn [length]. lia.
+           ++ apply Forall_app_mid. split; [exact Hf1|]. split; [exact Hwl|]. constructor; assumption.
+        -- rewrite Hins. change (es1 ++ mid :: es2) with (es1 ++ (mid :: es2)).
+           rewrite (inorder_child_split es1 (mid :: es2) cs1 l (rr :: cs2)) by (cbn [length]; lia).
+           cbn [map]. rewrite post_cons. rewrite <- Hin. rewrite <- !app_assoc. cbn [app]. reflexivity.
+Qed.
+
+Definition wf_root (r : option node) : Prop := match r with None => True | Some n => wf_shape n /\ bst n end.
+
+Theorem put_inorder : forall fuel e root root' b,
+  match root with Some n => (maxheight n <= fuel)%nat | None => True end ->
+  wf_root root ->
+  put m cmp fuel e root = Some (root', b) ->
+  inorder' root' = ins_list cmp (fst e) (snd e) (inorder' root) /\ wf_root root' /\
+  b = negb (mem_list cmp (fst e) (inorder' root)).
+Proof.
+  intros fuel e root root' b Hfuel Hwf H. destruct root as [n|]; cbn [put] in H.
+  - destruct Hwf as [Hwf Hbst].
+    destruct (ins m cmp fuel e n) as [[r bi]|] eqn:Ei; [|discriminate].
+    destruct (ins_inorder fuel e n r bi Hfuel Hwf Hbst Ei) as [Hb Hpost].
+    assert (Hs : ksorted cmp (ins_list cmp (fst e) (snd e) (inorder n))) by (apply ins_list_sorted; exact Hbst).
+    destruct r as [n'|l mid rr]; injection H as <- <-; unfold ins_post in Hpost; cbn [inorder'].
+    + destruct Hpost as [Hin Hw]. split; [exact Hin|]. split; [|exact Hb].
+      split; [exact Hw|]. unfold bst. rewrite Hin. exact Hs.
+    + destruct Hpost as (Hin & Hwl & Hwr).
+      assert (Ein : inorder (N [mid] [l; rr]) = inorder l ++ mid :: inorder rr).
+      { cbn. rewrite !app_nil_r. reflexivity. }
+      rewrite Ein. split; [exact Hin|]. split; [|exact Hb]. split.
+      * constructor; [right; reflexivity|]. constructor; [exact Hwl|]. constructor; [exact Hwr|constructor].
+      * unfold bst. rewrite Ein, Hin. exact Hs.
+  - injection H as <- <-. cbn. split; [destruct e; reflexivity|]. split; [|reflexivity]. split.
+    + constructor; [left; reflexivity|constructor].
+    + unfold bst. cbn. apply ksorted_cons. split; [apply ksorted_nil|intros x []].
+Qed.
+
+(* ---------- get ---------- *)
+Theorem get_spec : forall fuel key n, wf_shape n -> bst n -> (maxheight n <= fuel)%nat ->
+  get cmp fuel key n = find_list cmp key (inorder n).
+Proof.
+  induction fuel as [|f IH]; intros key [es cs] Hwf Hbst Hfuel; [cbn in Hfuel; lia|].
+  cbn [get]. pose proof (bst_entries _ _ Hbst) as Hes.
+  apply wf_shape_inv in Hwf. destruct Hwf as [Hl Hf].
+  destruct (search cmp key es) as [pos found] eqn:Es. destruct found.
+  - destruct (search_found _ _ _ Hes Es) as (es1 & e0 & es2 & -> & Hpos & Heq). subst pos.
+    rewrite nth_error_app_mid.
+    destruct (inorder_entry_split es1 e0 es2 cs Hl) as (A & B & HAB).
+    unfold bst in Hbst. rewrite HAB in *.
+    destruct (sorted_eq_ctx _ _ _ _ Hbst Heq) as [HA HB].
+    rewrite find_list_mid by assumption. reflexivity.
+  - destruct (search_notfound _ _ _ Hes Es) as (es1 & es2 & -> & Hpos & HG & HL). subst pos.
+    destruct Hl as [->|Hl].
+    + replace (nth_error (@nil node) (length es1)) with (@None node) by (destruct (length es1); reflexivity).
+      cbn [inorder map interleave]. rewrite find_list_none by assumption. reflexivity.
+    + rewrite app_length in Hl.
+      destruct (nth_error cs (length es1)) as [c|] eqn:Ec; [|apply nth_error_None in Ec; lia].
+      destruct (split_nth _ _ _ _ Ec) as (cs1 & cs2 & -> & Hc1).
+      rewrite !app_length in Hl. cbn [length] in Hl.
+      assert (Hc2 : length cs2 = length es2) by lia.
+      apply Forall_app_mid in Hf. destruct Hf as (Hf1 & Hfc & Hf2).
+      pose proof (maxheight_child (es1 ++ es2) (cs1 ++ c :: cs2) c) as Hmc.
+      assert (Hin : In c (cs1 ++ c :: cs2)) by (apply in_or_app; right; left; reflexivity). specialize (Hmc Hin).
+      unfold bst in Hbst. rewrite (inorder_child_split es1 es2 cs1 c cs2 Hc1 Hc2) in *.
+      destruct (child_ctx key es1 es2 (map inorder cs1) (map inorder cs2) (inorder c)) as (HA & HB & HX);
+        try (rewrite map_length; assumption); try assumption.
+      rewrite find_list_app_l by assumption. rewrite find_list_app_r by assumption.
+      apply IH; [exact Hfc|exact HX|lia].
+Qed.
+
 End Map.
+
+(* ---------- count / leftmost / rightmost (no comparator) ---------- *)
+Lemma interleave_length : forall cs (es : list entry),
+  length (interleave cs es) = (length es + list_sum (map (@length entry) cs))%nat.
+Proof.
+  induction cs as [|c cs IH]; intros es; cbn; [lia|].
+  rewrite app_length. destruct es as [|e es].
+  - cbn. clear IH. fold (list_sum (map (@length entry) cs)). induction cs as [|c' cs IH']; cbn; [lia|]. rewrite app_length. fold (list_sum (map (@length entry) cs)). lia.
+  - cbn [length]. rewrite IH. fold (list_sum (map (@length entry) cs)). lia.
+Qed.
+
+Lemma count_inorder_gen : forall n, count n = length (inorder n).
+Proof.
+  induction n as [es cs IH] using node_ind2. cbn [count inorder]. rewrite interleave_length. f_equal.
+  rewrite map_map. f_equal. induction IH as [|c cs Hc Hcs IHcs]; [reflexivity|]. cbn. rewrite Hc, IHcs. reflexivity.
+Qed.
+
+Theorem count_inorder : forall n, wf_shape n -> count n = length (inorder n).
+Proof. intros n _. apply count_inorder_gen. Qed.
+
+Inductive ne_entries : node -> Prop :=
+| ne_N : forall es cs, es <> [] -> Forall ne_entries cs -> ne_entries (N es cs).
+
+Lemma In_interleave_es' : forall cs (es : list entry) x, In x es -> In x (interleave cs es).
+Proof.
+  induction cs as [|c cs IH]; intros es x H; [exact H|].
+  cbn. apply in_or_app. right. destruct es as [|e es]; [contradiction|].
+  destruct H as [<-|H]; [left; reflexivity|right; apply IH; exact H].
+Qed.
+
+Lemma ne_entries_inorder : forall n, ne_entries n -> inorder n <> [].
+Proof.
+  intros n H. inversion H as [es cs Hes Hf]; subst. destruct es as [|e es]; [congruence|].
+  intros E. assert (Hin : In e (inorder (N (e :: es) cs))) by (apply In_interleave_es'; left; reflexivity).
+  rewrite E in Hin. contradiction.
+Qed.
+
+Lemma hd_error_app_ne : forall A (l1 l2 : list A), l1 <> [] -> hd_error (l1 ++ l2) = hd_error l1.
+Proof. intros A [|a l1] l2 H; [congruence|reflexivity]. Qed.
+
+Theorem left_entry_spec : forall n, wf_shape n -> ne_entries n -> left_entry n = hd_error (inorder n).
+Proof.
+  induction n as [es cs IH] using node_ind2. intros Hwf Hne.
+  apply wf_shape_inv in Hwf. destruct Hwf as [Hl Hf]. inversion Hne as [es' cs' Hes Hnf]; subst.
+  destruct cs as [|c cs]; [reflexivity|].
+  cbn [left_entry inorder map interleave].
+  inversion IH as [|c' cs' IHc IHcs]; subst. inversion Hf; subst. inversion Hnf; subst.
+  rewrite hd_error_app_ne by (apply ne_entries_inorder; assumption). apply IHc; assumption.
+Qed.
+
+Lemma last_opt_app_ne : forall A (l1 l2 : list A), l2 <> [] -> last_opt (l1 ++ l2) = last_opt l2.
+Proof.
+  intros A l1 l2 H. destruct (exists_last H) as (l' & x & ->). rewrite app_assoc. rewrite !last_opt_app. reflexivity.
+Qed.
+
+Lemma right_node_spec : forall fuel n, (maxheight n <= fuel)%nat -> wf_shape n -> ne_entries n ->
+  last_opt (entries (right_node fuel n)) = last_opt (inorder n).
+Proof.
+  induction fuel as [|f IH]; intros [es cs] Hfuel Hwf Hne; [cbn in Hfuel; lia|].
+  apply wf_shape_inv in Hwf. destruct Hwf as [Hl Hf]. inversion Hne as [es' cs' Hes Hnf]; subst.
+  cbn [right_node]. destruct (last_opt cs) as [c|] eqn:El.
+  - apply last_opt_Some in El. remember (removelast cs) as cs0 eqn:E0. clear E0. subst cs.
+    destruct Hl as [Hl|Hl]; [destruct cs0; discriminate|].
+    rewrite app_length in Hl. cbn [length] in Hl.
+    rewrite Forall_app in Hf, Hnf. destruct Hf as [_ Hf]. destruct Hnf as [_ Hnf].
+    inversion Hf; subst. inversion Hnf; subst.
+    pose proof (maxheight_child es (cs0 ++ [c]) c) as Hmc.
+    assert (Hin : In c (cs0 ++ [c])) by (apply in_or_app; right; left; reflexivity). specialize (Hmc Hin).
+    rewrite IH; [|lia|assumption|assumption].
+    cbn [inorder]. rewrite map_app. cbn [map]. rewrite interleave_last by (rewrite map_length; lia).
+    rewrite last_opt_app_ne by (apply ne_entries_inorder; assumption). reflexivity.
+  - apply last_opt_None in El. subst cs. reflexivity.
+Qed.
+
+Theorem right_entry_spec : forall n, wf_shape n -> ne_entries n -> right_entry n = last_opt (inorder n).
+Proof.
+  intros n Hwf Hne. unfold right_entry. apply right_node_spec; [lia|assumption|assumption].
+Qed.
+
+(* ---------- rebalancing preserves the in-order sequence (pure list reasoning) ---------- *)
+Lemma bal_1 : forall es cs, bal 1 (N es cs) <-> cs = [].
+Proof. intros es cs. reflexivity. Qed.
+Lemma bal_SS : forall h es cs, bal (S (S h)) (N es cs) <-> (length cs = S (length es) /\ Forall (bal (S h)) cs).
+Proof. intros h es cs. reflexivity. Qed.
+
+Lemma inorder_snoc_snoc : forall cs c (es : list entry) e, length cs = S (length es) ->
+  inorder (N (es ++ [e]) (cs ++ [c])) = inorder (N es cs) ++ e :: inorder c.
+Proof.
+  intros cs c es e Hl. cbn [inorder]. rewrite map_app. cbn [map].
+  rewrite interleave_app_entry' by (rewrite map_length; exact Hl). cbn. rewrite app_nil_r. reflexivity.
+Qed.
+
+Lemma borrow_left_nodes : forall h les lcs ces ccs (sep le : entry),
+  bal (S h) (N les lcs) -> bal (S h) (N ces ccs) -> last_opt les = Some le ->
+  let '(lcs', ccs') := bl_pair lcs ccs in
+  inorder (N (removelast les) lcs') ++ le :: inorder (N (sep :: ces) ccs') =
+    inorder (N les lcs) ++ sep :: inorder (N ces ccs) /\
+  bal (S h) (N (removelast les) lcs') /\ bal (S h) (N (sep :: ces) ccs').
+Proof.
+  intros h les lcs ces ccs sep le HL HC Hle. apply last_opt_Some in Hle.
+  remember (removelast les) as les' eqn:E. clear E. subst les.
+  destruct h as [|h']; [apply bal_1 in HL; apply bal_1 in HC|apply bal_SS in HL; apply bal_SS in HC].
+  - subst lcs ccs. cbn. rewrite <- app_assoc. split; [reflexivity|]. split; reflexivity.
+  - destruct HL as [HLl HLf]. destruct HC as [HCl HCf].
+    rewrite app_length in HLl. cbn [length] in HLl.
+    destruct (exists_last (l:=lcs)) as (lcs' & lc & ->); [intros ->; discriminate|].
+    rewrite bl_pair_snoc. rewrite app_length in HLl. cbn [length] in HLl.
+    rewrite Forall_app in HLf. destruct HLf as [HLf1 HLf2]. inversion HLf2; subst.
+    split; [|split].
+    + rewrite inorder_snoc_snoc by lia. rewrite <- app_assoc. reflexivity.
+    + apply bal_SS. split; [lia|exact HLf1].
+    + apply bal_SS. split; [cbn [length]; lia|]. constructor; assumption.
+Qed.
+
+Lemma borrow_right_nodes : forall h ces ccs (re : entry) res' rcs (sep : entry),
+  bal (S h) (N ces ccs) -> bal (S h) (N (re :: res') rcs) ->
+  let '(rcs', ccs') := br_pair rcs ccs in
+  inorder (N (ces ++ [sep]) ccs') ++ re :: inorder (N res' rcs') =
+    inorder (N ces ccs) ++ sep :: inorder (N (re :: res') rcs) /\
+  bal (S h) (N (ces ++ [sep]) ccs') /\ bal (S h) (N res' rcs').
+Proof.
+  intros h ces ccs re res' rcs sep HC HR.
+  destruct h as [|h']; [apply bal_1 in HR; apply bal_1 in HC|apply bal_SS in HR; apply bal_SS in HC].
+  - subst rcs ccs. cbn. rewrite <- app_assoc. split; [reflexivity|]. split; reflexivity.
+  - destruct HR as [HRl HRf]. destruct HC as [HCl HCf]. cbn [length] in HRl.
+    destruct rcs as [|rc rcs']; [discriminate|]. cbn [br_pair]. cbn [length] in HRl.
+    inversion HRf; subst.
+    split; [|split].
+    + rewrite inorder_snoc_snoc by lia. rewrite <- app_assoc. reflexivity.
+    + apply bal_SS. split; [rewrite !app_length; cbn [length]; lia|]. apply Forall_app. split; [exact HCf|]. constructor; [assumption|constructor].
+    + apply bal_SS. split; [lia|assumption].
+Qed.
+
+Lemma merge_nodes : forall h aes acs bes bcs (sep : entry),
+  bal (S h) (N aes acs) -> bal (S h) (N bes bcs) ->
+  inorder (N (aes ++ sep :: bes) (acs ++ bcs)) = inorder (N aes acs) ++ sep :: inorder (N bes bcs) /\
+  bal (S h) (N (aes ++ sep :: bes) (acs ++ bcs)).
+Proof.
+  intros h aes acs bes bcs sep HA HB.
+  destruct h as [|h']; [apply bal_1 in HA; apply bal_1 in HB|apply bal_SS in HA; apply bal_SS in HB].
+  - subst acs bcs. cbn. split; reflexivity.
+  - destruct HA as [HAl HAf]. destruct HB as [HBl HBf]. split.
+    + cbn [inorder]. rewrite map_app. apply interleave_app_entry'. rewrite map_length. exact HAl.
+    + apply bal_SS. split; [rewrite !app_length; cbn [length]; lia|]. apply Forall_app. split; assumption.
+Qed.
+
+Lemma inorder_two : forall (es1 es2 : list entry) cs1 cs2 a b sep,
+  length cs1 = length es1 -> length cs2 = length es2 ->
+  inorder (N (es1 ++ sep :: es2) (cs1 ++ a :: b :: cs2)) =
+  pre (map inorder cs1) es1 ++ (inorder a ++ sep :: inorder b) ++ post (map inorder cs2) es2.
+Proof.
+  intros es1 es2 cs1 cs2 a b sep H1 H2.
+  rewrite (inorder_child_split es1 (sep :: es2) cs1 a (b :: cs2)) by (cbn [length]; lia).
+  cbn [map]. rewrite post_cons. rewrite <- !app_assoc. reflexivity.
+Qed.
+
+Lemma Forall_adj : forall A (P : A -> Prop) l1 a b l2,
+  Forall P (l1 ++ a :: b :: l2) <-> (Forall P l1 /\ P a /\ P b /\ Forall P l2).
+Proof.
+  intros A P l1 a b l2. rewrite Forall_app_mid. split.
+  - intros (H1 & H2 & H3). inversion H3; subst. auto.
+  - intros (H1 & H2 & H3 & H4). split; [exact H1|]. split; [exact H2|]. constructor; assumption.
+Qed.
+
+Section RebInorder.
+Variable m : nat.
+
+Definition reb_post (h : nat) (es : list entry) (cs : list node) (n' : node) : Prop :=
+  inorder n' = inorder (N es cs) /\ bal (S (S h)) n'.
+
+Lemma borrow_left_inorder : forall h es cs i ces ccs n',
+  length cs = S (length es) -> Forall (bal (S h)) cs -> nth_error cs i = Some (N ces ccs) ->
+  borrow_left_f m es cs i ces ccs = Some n' -> reb_post h es cs n'.
+Proof.
+  intros h es cs i ces ccs n' Hl Hf Hc H. unfold borrow_left_f, left_sib in H.
+  destruct (1 <=? i)%nat eqn:Ei; [|discriminate]. apply Nat.leb_le in Ei.
+  destruct i as [|j]; [lia|]. replace (S j - 1)%nat with j in H by lia.
+  destruct (nth_error cs j) as [[les lcs]|] eqn:EL; [|discriminate].
+  destruct (minEntries m <? length les)%nat; [|discriminate].
+  destruct (nth_error es j) as [sep|] eqn:Esep; [|discriminate].
+  destruct (last_opt les) as [le|] eqn:Ele; [|discriminate].
+  destruct (split_adj _ _ _ _ _ EL Hc) as (cs1 & cs2 & -> & Hc1).
+  destruct (split_nth _ _ _ _ Esep) as (es1 & es2 & -> & He1).
+  rewrite !app_length in Hl. cbn [length] in Hl.
+  assert (Hc2 : length cs2 = length es2) by lia.
+  apply Forall_adj in Hf. destruct Hf as (Hf1 & HfL & HfC & Hf2).
+  pose proof (borrow_left_nodes h les lcs ces ccs sep le HfL HfC Ele) as Hn.
+  destruct (bl_pair lcs ccs) as [lcs' ccs']. destruct Hn as (Hin & HbL & HbC).
+  injection H as <-. subst j.
+  rewrite <- He1 at 1. rewrite replace_at_app. rewrite replace_at_adj_lo, replace_at_adj_hi.
+  unfold reb_post. split.
+  - rewrite !inorder_two by lia. rewrite Hin. reflexivity.
+  - apply bal_SS. split; [rewrite !app_length; cbn [length]; lia|].
+    apply Forall_adj. auto.
+Qed.
+
+Lemma borrow_right_inorder : forall h es cs i ces ccs n',
+  length cs = S (length es) -> Forall (bal (S h)) cs -> nth_error cs i = Some (N ces ccs) ->
+  borrow_right_f m es cs i ces ccs = Some n' -> reb_post h es cs n'.
+Proof.
+  intros h es cs i ces ccs n' Hl Hf Hc H. unfold borrow_right_f in H.
+  destruct (nth_error cs (S i)) as [[res rcs]|] eqn:ER; [|discriminate].
+  destruct (minEntries m <? length res)%nat; [|discriminate].
+  destruct (nth_error es i) as [sep|] eqn:Esep; [|discriminate].
+  destruct res as [|re res']; [discriminate|].
+  destruct (split_adj _ _ _ _ _ Hc ER) as (cs1 & cs2 & -> & Hc1).
+  destruct (split_nth _ _ _ _ Esep) as (es1 & es2 & -> & He1).
+  rewrite !app_length in Hl. cbn [length] in Hl.
+  assert (Hc2 : length cs2 = length es2) by lia.
+  apply Forall_adj in Hf. destruct Hf as (Hf1 & HfC & HfR & Hf2).
+  pose proof (borrow_right_nodes h ces ccs re res' rcs sep HfC HfR) as Hn.
+  destruct (br_pair rcs ccs) as [rcs' ccs']. destruct Hn as (Hin & HbC & HbR).
+  injection H as <-. subst i.
+  rewrite <- He1 at 1. rewrite replace_at_app. rewrite replace_at_adj_lo, replace_at_adj_hi.
+  unfold reb_post. split.
+  - rewrite !inorder_two by lia. rewrite Hin. reflexivity.
+  - apply bal_SS. split; [rewrite !app_length; cbn [length]; lia|].
+    apply Forall_adj. auto.
+Qed.
+
+Lemma merge_inorder : forall h es cs i ces ccs n',
+  length cs = S (length es) -> Forall (bal (S h)) cs -> nth_error cs i = Some (N ces ccs) ->
+  merge_f es cs i ces ccs = Some n' -> reb_post h es cs n'.
+Proof.
+  intros h es cs i ces ccs n' Hl Hf Hc H. unfold merge_f, left_sib in H.
+  destruct (nth_error cs (S i)) as [[res rcs]|] eqn:ER.
+  - (* merge with the right sibling *)
+    destruct (nth_error es i) as [sep|] eqn:Esep; [|discriminate].
+    destruct (split_adj _ _ _ _ _ Hc ER) as (cs1 & cs2 & -> & Hc1).
+    destruct (split_nth _ _ _ _ Esep) as (es1 & es2 & -> & He1).
+    rewrite !app_length in Hl. cbn [length] in Hl.
+    assert (Hc2 : length cs2 = length es2) by lia.
+    apply Forall_adj in Hf. destruct Hf as (Hf1 & HfC & HfR & Hf2).
+    destruct (merge_nodes h ces ccs res rcs sep HfC HfR) as [Hin Hb].
+    injection H as <-. subst i.
+    rewrite <- He1 at 1. rewrite remove_at_app. rewrite replace_at_adj_lo, remove_at_adj_hi.
+    unfold reb_post. split.
+    + rewrite inorder_two by lia. rewrite inorder_child_split by lia. rewrite Hin. reflexivity.
+    + apply bal_SS. split; [rewrite !app_length; cbn [length]; lia|].
+      apply Forall_app_mid. auto.
+  - destruct (1 <=? i)%nat eqn:Ei.
+    + apply Nat.leb_le in Ei. destruct i as [|j]; [lia|]. replace (S j - 1)%nat with j in H by lia.
+      destruct (nth_error cs j) as [[les lcs]|] eqn:EL.
+      * destruct (nth_error es j) as [sep|] eqn:Esep; [|discriminate].
+        destruct (split_adj _ _ _ _ _ EL Hc) as (cs1 & cs2 & -> & Hc1).
+        destruct (split_nth _ _ _ _ Esep) as (es1 & es2 & -> & He1).
+        rewrite !app_length in Hl. cbn [length] in Hl.
+        assert (Hc2 : length cs2 = length es2) by lia.
+        apply Forall_adj in Hf. destruct Hf as (Hf1 & HfL & HfC & Hf2).
+        destruct (merge_nodes h les lcs ces ccs sep HfL HfC) as [Hin Hb].
+        injection H as <-. subst j.
+        rewrite <- He1 at 1. rewrite remove_at_app. rewrite replace_at_adj_hi, remove_at_adj_lo.
+        unfold reb_post. split.
+        -- rewrite inorder_two by lia. rewrite inorder_child_split by lia. rewrite Hin. reflexivity.
+        -- apply bal_SS. split; [rewrite !app_length; cbn [length]; lia|].
+           apply Forall_app_mid. auto.
+      * injection H as <-. unfold reb_post. split; [reflexivity|]. apply bal_SS. split; assumption.
+    + injection H as <-. unfold reb_post. split; [reflexivity|]. apply bal_SS. split; assumption.
+Qed.
+
+Lemma rebalance_inorder : forall h es cs i n',
+  length cs = S (length es) -> Forall (bal (S h)) cs ->
+  rebalance_child m es cs i = Some n' -> reb_post h es cs n'.
+Proof.
+  intros h es cs i n' Hl Hf H. rewrite rebalance_child_eq in H.
+  destruct (nth_error cs i) as [[ces ccs]|] eqn:Hc; [|discriminate].
+  destruct (minEntries m <=? length ces)%nat.
+  - injection H as <-. unfold reb_post. split; [reflexivity|]. apply bal_SS. split; assumption.
+  - destruct (borrow_left_f m es cs i ces ccs) as [r|] eqn:EBL.
+    + injection H as <-. eapply borrow_left_inorder; eassumption.
+    + destruct (borrow_right_f m es cs i ces ccs) as [r|] eqn:EBR.
+      * injection H as <-. eapply borrow_right_inorder; eassumption.
+      * eapply merge_inorder; eassumption.
+Qed.
+End RebInorder.
+
+
+Section Del.
+Variable cmp : cmpf.
+Hypothesis Hswo : SWO cmp.
+Variable m : nat.
+Hypothesis Hm : (3 <= m)%nat.
+
+Lemma inorder_last_child : forall (es : list entry) cs0 c, length cs0 = length es ->
+  inorder (N es (cs0 ++ [c])) = pre (map inorder cs0) es ++ inorder c.
+Proof.
+  intros es cs0 c Hl. cbn [inorder]. rewrite map_app. cbn [map]. apply interleave_last. rewrite map_length. exact Hl.
+Qed.
+
+Lemma post_head_indep : forall (cs2 : list (list entry)) es2, length cs2 = S (length es2) ->
+  exists R, forall x, post cs2 (x :: es2) = x :: R.
+Proof.
+  intros cs2 es2 Hl. destruct cs2 as [|c2 cs2]; [discriminate|].
+  exists (c2 ++ post cs2 es2). intros x. reflexivity.
+Qed.
+
+Lemma delmax_inorder : forall fuel h n n' e, bal h n -> (h <= fuel)%nat ->
+  delmax m fuel n = Some (n', e) -> inorder n = inorder n' ++ [e] /\ bal h n'.
+Proof.
+  induction fuel as [|f IH]; intros h [es cs] n' e Hb Hfuel H; [discriminate|].
+  cbn [delmax] in H. destruct h as [|[|h']]; [contradiction| |].
+  - apply bal_1 in Hb. subst cs.
+    destruct (last_opt es) as [le|] eqn:El; [|discriminate]. injection H as <- <-.
+    apply last_opt_Some in El. cbn. split; [exact El|reflexivity].
+  - apply bal_SS in Hb. destruct Hb as [Hl Hf].
+    destruct cs as [|c0 cs0] eqn:Ecs; [discriminate|]. rewrite <- Ecs in *. clear Ecs c0 cs0.
+    destruct (nth_error cs (length cs - 1)) as [c|] eqn:Ec; [|discriminate].
+    destruct (split_nth _ _ _ _ Ec) as (cs1 & cs2 & -> & Hc1).
+    rewrite app_length in Hc1. cbn [length] in Hc1. destruct cs2 as [|x cs2]; [|cbn [length] in Hc1; lia].
+    rewrite app_length in Hl. cbn [length] in Hl.
+    rewrite Forall_app in Hf. destruct Hf as [Hf1 Hfc]. inversion Hfc as [|c' l' Hbc _]; subst.
+    destruct (delmax m f c) as [[c' e']|] eqn:Ed; [|discriminate].
+    destruct (IH (S h') c c' e' Hbc ltac:(lia) Ed) as [Hin Hbc'].
+    rewrite app_length in H. cbn [length] in H.
+    replace (length cs1 + 1 - 1)%nat with (length cs1) in H by lia. rewrite replace_at_app in H.
+    destruct (rebalance_child m es (cs1 ++ [c']) (length cs1)) as [n1|] eqn:Er; [|discriminate].
+    injection H as <- <-.
+    destruct (rebalance_inorder m h' es (cs1 ++ [c']) (length cs1) n1) as [Hin1 Hb1].
+    + rewrite app_length. cbn [length]. lia.
+    + apply Forall_app. split; [exact Hf1|]. constructor; [exact Hbc'|constructor].
+    + exact Er.
+    + split; [|exact Hb1]. rewrite Hin1. rewrite !inorder_last_child by lia. rewrite Hin. rewrite app_assoc. reflexivity.
+Qed.
+
+Lemma del_list_absent : forall key l, mem_list cmp key l = false -> del_list cmp key l = l.
+Proof.
+  intros key l. unfold mem_list, find_list. induction l as [|[k v] l IH]; intros H; [reflexivity|].
+  cbn in *. destruct (cmp key k); cbn in *; [discriminate|reflexivity|]. rewrite IH by exact H. reflexivity.
+Qed.
+
+Lemma del_inorder : forall fuel h key n n' b, bal h n -> bst cmp n -> (h <= fuel)%nat ->
+  del m cmp fuel key n = Some (n', b) ->
+  inorder n' = del_list cmp key (inorder n) /\ bal h n' /\ b = mem_list cmp key (inorder n).
+Proof.
+  induction fuel as [|f IH]; intros h key [es cs] n' b Hb Hbst Hfuel H; [discriminate|].
+  cbn [del] in H. pose proof (bst_entries cmp _ _ Hbst) as Hes.
+  destruct (search cmp key es) as [pos found] eqn:Es.
+  destruct h as [|[|h']]; [contradiction| |].
+  - (* leaf *)
+    pose proof Hb as Hb0. apply bal_1 in Hb. subst cs. destruct found.
+    + injection H as <- <-.
+      destruct (search_found cmp Hswo _ _ _ Hes Es) as (es1 & e0 & es2 & -> & Hpos & Heq). subst pos.
+      rewrite remove_at_app. cbn [inorder map interleave] in *. unfold bst in Hbst. cbn [inorder map interleave] in Hbst.
+      destruct (sorted_eq_ctx cmp Hswo _ _ _ _ Hbst Heq) as [HA HB].
+      rewrite del_list_mid by assumption. unfold mem_list. rewrite find_list_mid by assumption.
+      split; [reflexivity|]. split; reflexivity.
+    + injection H as <- <-.
+      destruct (search_notfound cmp Hswo _ _ _ Hes Es) as (es1 & es2 & -> & Hpos & HG & HL).
+      cbn [inorder map interleave]. rewrite del_list_none by assumption.
+      unfold mem_list. rewrite find_list_none by assumption. split; [reflexivity|]. split; [exact Hb0|reflexivity].
+  - (* internal *)
+    pose proof Hb as Hb0. apply bal_SS in Hb. destruct Hb as [Hl Hf].
+    destruct cs as [|c0 cs0] eqn:Ecs; [discriminate|]. rewrite <- Ecs in *. clear Ecs c0 cs0.
+    destruct (nth_error cs pos) as [c|] eqn:Ec; [|discriminate].
+    destruct (split_nth _ _ _ _ Ec) as (cs1 & cs2 & -> & Hc1).
+    apply Forall_app_mid in Hf. destruct Hf as (Hf1 & Hfc & Hf2).
+    destruct found.
+    + (* key in this node: replace it by its predecessor *)
+      destruct (search_found cmp Hswo _ _ _ Hes Es) as (es1 & e0 & es2 & -> & Hpos & Heq).
+      assert (Hc1' : length cs1 = length es1) by lia. clear Hc1. subst pos. rename Hc1' into Hc1.
+      rewrite !app_length in Hl. cbn [length] in Hl.
+      assert (Hc2 : length cs2 = S (length es2)) by lia.
+      destruct (delmax m f c) as [[c' pred]|] eqn:Ed; [|discriminate].
+      destruct (delmax_inorder f (S h') c c' pred Hfc ltac:(lia) Ed) as [Hinc Hbc'].
+      rewrite replace_at_app in H. rewrite <- Hc1 in H. rewrite replace_at_app in H.
+      destruct (rebalance_child m (es1 ++ pred :: es2) (cs1 ++ c' :: cs2) (length cs1)) as [n1|] eqn:Er; [|discriminate].
+      injection H as <- <-.
+      destruct (rebalance_inorder m h' (es1 ++ pred :: es2) (cs1 ++ c' :: cs2) (length cs1) n1) as [Hin1 Hb1].
+      * rewrite !app_length. cbn [length]. lia.
+      * apply Forall_app_mid. auto.
+      * exact Er.
+      * destruct (post_head_indep (map inorder cs2) es2) as [R HR]; [rewrite map_length; exact Hc2|].
+        assert (Eold : inorder (N (es1 ++ e0 :: es2) (cs1 ++ c :: cs2)) =
+                       (pre (map inorder cs1) es1 ++ inorder c' ++ [pred]) ++ e0 :: R).
+        { rewrite (inorder_child_split es1 (e0 :: es2) cs1 c cs2) by (cbn [length]; lia).
+          rewrite HR, Hinc. rewrite <- !app_assoc. reflexivity. }
+        assert (Enew : inorder (N (es1 ++ pred :: es2) (cs1 ++ c' :: cs2)) =
+                       (pre (map inorder cs1) es1 ++ inorder c' ++ [pred]) ++ R).
+        { rewrite (inorder_child_split es1 (pred :: es2) cs1 c' cs2) by (cbn [length]; lia).
+          rewrite HR. rewrite <- !app_assoc. reflexivity. }
+        unfold bst in Hbst. rewrite Eold in *.
+        destruct (sorted_eq_ctx cmp Hswo _ _ _ _ Hbst Heq) as [HA HB].
+        rewrite Hin1, Enew. rewrite del_list_mid by assumption.
+        unfold mem_list. rewrite find_list_mid by assumption. split; [reflexivity|]. split; [exact Hb1|reflexivity].
+    + destruct (search_notfound cmp Hswo _ _ _ Hes Es) as (es1 & es2 & -> & Hpos & HG & HL).
+      assert (Hc1' : length cs1 = length es1) by lia. clear Hc1. subst pos. rename Hc1' into Hc1.
+      rewrite !app_length in Hl. cbn [length] in Hl.
+      assert (Hc2 : length cs2 = length es2) by lia.
+      unfold bst in Hbst. rewrite (inorder_child_split es1 es2 cs1 c cs2 Hc1 Hc2) in Hbst.
+      destruct (child_ctx cmp Hswo key es1 es2 (map inorder cs1) (map inorder cs2) (inorder c)) as (HA & HB & HX);
+        try (rewrite map_length; assumption); try assumption.
+      destruct (del m cmp f key c) as [[c' bc]|] eqn:Edl; [|discriminate].
+      destruct (IH (S h') key c c' bc Hfc HX ltac:(lia) Edl) as (Hinc & Hbc' & Hbc).
+      rewrite (inorder_child_split es1 es2 cs1 c cs2 Hc1 Hc2).
+      rewrite mem_list_app_l by assumption. rewrite mem_list_app_r by assumption.
+      rewrite del_list_app_l by assumption. rewrite del_list_app_r by assumption.
+      destruct bc.
+      * rewrite <- Hc1 in H. rewrite replace_at_app in H.
+        destruct (rebalance_child m (es1 ++ es2) (cs1 ++ c' :: cs2) (length cs1)) as [n1|] eqn:Er; [|discriminate].
+        injection H as <- <-.
+        destruct (rebalance_inorder m h' (es1 ++ es2) (cs1 ++ c' :: cs2) (length cs1) n1) as [Hin1 Hb1].
+        -- rewrite !app_length. cbn [length]. lia.
+        -- apply Forall_app_mid. auto.
+        -- exact Er.
+        -- rewrite Hin1. rewrite (inorder_child_split es1 es2 cs1 c' cs2 Hc1 Hc2). rewrite Hinc.
+           split; [reflexivity|]. split; [exact Hb1|exact Hbc].
+      * injection H as <- <-. rewrite (inorder_child_split es1 es2 cs1 c cs2 Hc1 Hc2).
+        rewrite del_list_absent by (symmetry; exact Hbc).
+        split; [reflexivity|]. split; [exact Hb0|exact Hbc].
+Qed.
+
+Definition bal_root (fuel : nat) (r : option node) : Prop :=
+  match r with None => True | Some n => (exists h, bal h n) /\ (maxheight n <= fuel)%nat end.
+
+(* NOTE: the shape hypothesis is [bal] (all leaves at the same depth), which is stronger than
+   [wf_shape]: with [wf_shape] alone the statement is false (see the counter-example below). *)
+Theorem remove_inorder : forall fuel key root root' b,
+  bal_root fuel root -> wf_root cmp root ->
+  remove m cmp fuel key root = Some (root', b) ->
+  inorder' root' = del_list cmp key (inorder' root) /\ wf_root cmp root' /\
+  b = mem_list cmp key (inorder' root) /\
+  match root' with None => True | Some n' => exists h', bal h' n' end.
+Proof.
+  intros fuel key root root' b Hbal Hwf H. destruct root as [n|]; cbn [remove] in H.
+  - destruct Hbal as [[h Hb] Hfuel]. destruct Hwf as [Hwf Hbst].
+    rewrite (bal_maxheight _ _ Hb) in Hfuel.
+    destruct (del m cmp fuel key n) as [[n1 b1]|] eqn:Ed; [|discriminate].
+    destruct (del_inorder fuel h key n n1 b1 Hb Hbst Hfuel Ed) as (Hin & Hb1 & Hmem).
+    assert (Hs : ksorted cmp (del_list cmp key (inorder n))) by (apply del_list_sorted; assumption).
+    cbn [inorder']. rewrite <- Hin in *.
+    assert (Hgen : inorder' (Some n1) = inorder n1 /\ wf_root cmp (Some n1) /\ b1 = mem_list cmp key (inorder n) /\ exists h', bal h' n1).
+    { cbn. split; [reflexivity|]. split; [split; [eapply bal_wf; exact Hb1|exact Hs]|]. split; [exact Hmem|]. exists h. exact Hb1. }
+    destruct n1 as [[|e1 es1] cs1].
+    + destruct cs1 as [|c1 cs1].
+      * injection H as <- <-. cbn. auto.
+      * injection H as <- <-. destruct h as [|[|h']]; [contradiction| |].
+        -- apply bal_1 in Hb1. discriminate.
+        -- apply bal_SS in Hb1. destruct Hb1 as [Hl Hf]. cbn [length] in Hl.
+           destruct cs1; [|discriminate]. pose proof (Forall_inv Hf) as Hbc.
+           assert (Ein : inorder (N [] [c1]) = inorder c1) by (cbn; rewrite app_nil_r; reflexivity).
+           rewrite Ein in *. cbn [inorder']. split; [reflexivity|]. split; [|split; [exact Hmem|exists (S h'); exact Hbc]].
+           split; [eapply bal_wf; exact Hbc|exact Hs].
+    + injection H as <- <-. exact Hgen.
+  - injection H as <- <-. cbn. auto.
+Qed.
+
+
+End Del.
+
+(* The statement of remove_inorder with [wf_shape] in place of [bal] is FALSE:
+
+     forall fuel key root root' b, (maxheight root <= fuel) -> wf_shape root -> bst root ->
+       remove m cmp fuel key root = Some (root', b) -> inorder' root' = del_list cmp key (inorder' root) ...
+
+   Counter-example (m = 3, an unbalanced but well-shaped and ordered tree): borrowing from a leaf left
+   sibling into an internal child does not move a grandchild, and the in-order sequence is corrupted. *)
+Definition cex_leaf (l : list Z) : node := N (map (fun k => (k, k)) l) [].
+Definition cex_tree : node := N [(5, 5)%Z] [cex_leaf [1; 2]%Z; N [(8, 8)%Z] [cex_leaf [7%Z]; cex_leaf [9%Z]]].
+Lemma remove_inorder_needs_balance :
+  wf_shape cex_tree /\ bst Z.compare cex_tree /\
+  (match remove 3 Z.compare 5 8%Z (Some cex_tree) with
+   | Some (Some n, _) => inorder n
+   | _ => []
+   end) = [(1, 1); (2, 2); (7, 7); (9, 9); (5, 5)]%Z.
+Proof.
+  split; [|split].
+  - repeat (constructor; try (left; reflexivity); try (right; reflexivity)).
+  - unfold bst, ksorted. cbn. repeat (constructor; try reflexivity).
+  - vm_compute. reflexivity.
+Qed.
+
+Print Assumptions search_spec.
+Print Assumptions put_inorder.
+Print Assumptions remove_inorder.
+Print Assumptions get_spec.
+Print Assumptions left_entry_spec.
+Print Assumptions right_entry_spec.
+Print Assumptions count_inorder.
